@@ -77,7 +77,9 @@ theorem good_history (A atStart : Bool) (hctx : atStart = true → A = false) (o
 theorem path_session_valid (w : Text) (h : Matches G.reference w) (ops : List PathOp)
     (hops : ∀ op ∈ ops, PathOp.Valid G op) :
     ∃ h', pathRun (Ref.path_mut w) ops = some h' ∧ Matches G.reference h'.buffer ∧
-      split h'.buffer = { split w with path := h'.view } := by
+      split h'.buffer = { split w with path := h'.view } ∧
+      h'.view = ops.foldl (opView (split w).authority.isSome (split w).authority.isSome
+        ((split w).scheme.isNone && (split w).authority.isNone)) (split w).path := by
   obtain ⟨hv, wf⟩ := split_valid G ok w h
   have inv := path_handle_of_reference G ok w h
   have hfa := follows_authority_eq G ok w h
@@ -98,7 +100,7 @@ theorem path_session_valid (w : Text) (h : Matches G.reference w) (ops : List Pa
   have hbuf : h'.buffer = recompose { split w with path := h'.view } := by
     rw [i.data, i.view, recompose_eq]
     simp [List.append_assoc]
-  refine ⟨h', e, ?_, ?_⟩
+  refine ⟨h', e, ?_, ?_, i.view⟩
   · rw [hbuf, i.view]
     exact (reference_iff G _).mpr ⟨_, rfl, hv'⟩
   · rw [hbuf, i.view]
